@@ -2,7 +2,7 @@
 //! refuses to start (process exits before its port opens) or serves exactly the pre-damage
 //! collection. The directory itself is produced by the real server (client writes over gRPC,
 //! then SIGTERM = clean shutdown). Every single fault = file x {deletion, truncation to 0 and to
-//! half, bit flip at first / middle / last byte}; truncations of the newest log segment are the
+//! half, bit flip at first / middle / last byte (thorough: at every byte)}; truncations of the newest log segment are the
 //! excluded crash case and are skipped.
 //!
 //! Output: one line `C13S-RESULT <json>` on stdout (merged into C13's evidence by crashmc).
@@ -119,14 +119,45 @@ fn apply_fault(dir: &Path, f: &Fault) {
     }
 }
 
-fn kind_class(k: &str, len: u64) -> String {
+/// Structural field of a WAL byte offset: header magic, or the length / payload / checksum of
+/// the frame it falls into ([u32 len][payload][u32 crc] after a 4-byte magic).
+fn wal_field(bytes: &[u8], off: usize) -> &'static str {
+    if off < 4 {
+        return "magic";
+    }
+    let mut p = 4usize;
+    while p + 4 <= bytes.len() {
+        let l = u32::from_le_bytes([bytes[p], bytes[p + 1], bytes[p + 2], bytes[p + 3]]) as usize;
+        if off < p + 4 {
+            return "frame.len";
+        }
+        if off < p + 4 + l {
+            return "frame.payload";
+        }
+        if off < p + 4 + l + 4 {
+            return "frame.crc";
+        }
+        p += 4 + l + 4;
+    }
+    "trailing"
+}
+
+fn kind_class(k: &str, len: u64, role: &str, original: &[u8]) -> String {
     if k == "delete" {
         "deleted".into()
     } else if let Some(n) = k.strip_prefix("truncate:") {
         if n == "0" { "truncated-to-0".into() } else { "truncated-to-half".into() }
     } else {
         let o: u64 = k["bitflip:".len()..].parse().unwrap();
-        if o == 0 { "bitflip-first-byte".into() } else if o + 1 == len { "bitflip-last-byte".into() } else { "bitflip-middle".into() }
+        if role.starts_with("wal:") {
+            format!("bitflip|{}", wal_field(original, o as usize))
+        } else if o == 0 {
+            "bitflip-first-byte".into()
+        } else if o + 1 == len {
+            "bitflip-last-byte".into()
+        } else {
+            "bitflip-middle".into()
+        }
     }
 }
 
@@ -226,10 +257,17 @@ pub fn run(tier: &str) -> i32 {
             if len > 0 {
                 kinds.push("bitflip:0".into());
                 if role != "wal:newest" {
-                    if len > 2 {
-                        kinds.push(format!("bitflip:{}", len / 2));
+                    if tier == "thorough" {
+                        // every byte of the file (lowest bit)
+                        for o in 1..len {
+                            kinds.push(format!("bitflip:{o}"));
+                        }
+                    } else {
+                        if len > 2 {
+                            kinds.push(format!("bitflip:{}", len / 2));
+                        }
+                        kinds.push(format!("bitflip:{}", len - 1));
                     }
-                    kinds.push(format!("bitflip:{}", len - 1));
                 }
             }
             for k in kinds {
@@ -244,11 +282,12 @@ pub fn run(tier: &str) -> i32 {
         let dd = work.join("data");
         copy_dir(data, &dd);
         let len = std::fs::metadata(dd.join(&f.file)).map(|m| m.len()).unwrap_or(0);
+        let original = std::fs::read(dd.join(&f.file)).unwrap_or_default();
         apply_fault(&dd, f);
         let cfg2 = work.join("c.toml");
         let txt = std::fs::read_to_string(cfgp).unwrap().replace(&data.to_string_lossy().to_string(), &dd.to_string_lossy().to_string());
         std::fs::write(&cfg2, txt).unwrap();
-        let class = kind_class(&f.kind, len);
+        let class = kind_class(&f.kind, len, &f.role, &original);
         let out = match launch(&cfg2, free_port(), free_port(), &[], &work) {
             Launch::Refused { .. } => ("refused".to_string(), None),
             Launch::Hung { log_tail } => ("hung".to_string(), Some(format!("neither listening nor exited within 30 s: {log_tail}"))),
